@@ -842,3 +842,40 @@ Qed.
 
 Theorem fuel_always_enough : forall dbg hp ho hd c u, url_origin dbg hp ho hd c u <> OFuel.
 Proof. intros dbg hp ho hd. apply fuel_never_out. apply blob_path_shrinks_holds. Qed.
+
+(* C16_blob without the two fuel premises *)
+Lemma blob_origin_total dbg hp ho hd c u p :
+  scheme u = Some s_blob -> path u = Some p ->
+  match url_parse dbg hp ho hd p with
+  | POk v => url_origin dbg hp ho hd c u = url_origin dbg hp ho hd c v
+  | PErr _ => url_origin dbg hp ho hd c u = new_opaque c
+  | PPanic => url_origin dbg hp ho hd c u = OPanic
+  end.
+Proof.
+  intros Hs Hp. pose proof (blob_origin dbg hp ho hd c u p Hs Hp) as H.
+  destruct (url_parse dbg hp ho hd p) as [v|e|]; [|exact H|exact H].
+  apply H; apply fuel_always_enough.
+Qed.
+
+(* ---------- concrete runs (stand-in host functions of Proofs/C16_Example.v) ---------- *)
+From RU Require Import Proofs.C16_Example.
+
+Definition t_blob_https_h_443_x : list N :=
+  [98; 108; 111; 98; 58; 104; 116; 116; 112; 115; 58; 47; 47; 104; 58; 52; 52; 51; 47; 120].
+Definition t_file_c_bar : list N := [102; 105; 108; 101; 58; 47; 67; 124; 47].      (* file:/C|/ *)
+Definition t_path_c_colon : list N := [47; 67; 58; 47].                               (* /C:/ *)
+
+(* the premises of url_parse_colons are met: blob:blob:https://h:443/x (4 ':') parses to a blob URL whose
+   path blob:https://h:443/x has 3 *)
+Lemma colons_example :
+  exists v, toy_parse t_blob_blob_https_h_443_x = POk v /\ scheme v = Some s_blob
+            /\ path v = Some t_blob_https_h_443_x
+            /\ count58 t_blob_https_h_443_x = 3%nat /\ count58 t_blob_blob_https_h_443_x = 4%nat.
+Proof. eexists. split; [vm_compute; reflexivity|]. vm_compute. repeat split. Qed.
+
+(* file URLs have to be excluded: the drive-letter quirk writes a ':' that was not in the input -
+   file:/C|/ (one ':') has the path /C:/ (one ':') *)
+Lemma colons_file_witness :
+  exists v, toy_parse t_file_c_bar = POk v /\ scheme v = Some s_file /\ path v = Some t_path_c_colon
+            /\ ~ (count58 t_path_c_colon < count58 t_file_c_bar)%nat.
+Proof. eexists. split; [vm_compute; reflexivity|]. vm_compute. repeat split. lia. Qed.
